@@ -194,7 +194,7 @@ class Agg:
 
 
 FAULT_KEYS = ('stall', 'busy_timeout', 'obj_timeout', 'obj_runtime', 'obj_value', 'obj_key', 'obj_zerodiv',
-              'prng_extreme', 'hook_decline', 'crash', 'reorder', 'duplicate', 'lock_conflict')
+              'prng_extreme', 'hook_decline', 'hook_accept', 'crash', 'reorder', 'duplicate', 'lock_conflict', 'foreign_lock')
 
 
 def fresh_digests(pid, items_json, hashseed='4242'):
